@@ -211,7 +211,11 @@ func ruleGL() Rule {
 				return
 			}
 			// appends of `x + sep` anywhere in Glob or its literals
-			funcs := append([]*core.Func{f}, f.Lits...)
+			var funcs []*core.Func
+			for _, g := range c.region(f) {
+				funcs = append(funcs, g)
+				funcs = append(funcs, g.Lits...)
+			}
 			nApp := 0
 			for _, g := range funcs {
 				info := g.Info()
@@ -266,9 +270,9 @@ func ruleGL() Rule {
 				rr.Unk(f, f.Name+"|append(x+sep)", f.Pos(), "no append of a `name + sep` element found in Glob")
 			}
 			// GL3: literal arm
-			info := f.Info()
 			n3 := 0
-			f.OwnNodes(func(n ast.Node) bool {
+			c.regionNodes(f, func(f *core.Func, n ast.Node) bool {
+				info := f.Info()
 				ifs, ok := n.(*ast.IfStmt)
 				if !ok || ifs.Init == nil {
 					return true
@@ -317,6 +321,24 @@ func ruleGL() Rule {
 				rr.Bad(f, f.Name+"|literal-arm", f.Pos(), "no os.Lstat/os.Stat existence test in Glob: literal components are returned whether or not they exist")
 			}
 			// GL1: sort before return
+			c.sortedReturns(rr, f, true, 0)
+		}}
+}
+
+// sortedReturns decides GL1 for g: every return of its first (slice) result is
+// preceded, on all paths since the list was last assigned, by a sort.  For
+// Glob itself (report) each return is an obligation; for a private helper the
+// answer is all-or-nothing and is used where the helper's result is assigned.
+func (c *Ctx) sortedReturns(rr *core.RuleResult, f *core.Func, report bool, depth int) bool {
+	key0 := fmt.Sprintf("sortedReturns:%s:%v", f.Name, report)
+	if v, ok := c.cache[key0]; ok {
+		return v.(bool)
+	}
+	c.cache[key0] = false
+	result := true
+	{
+		{
+			info := f.Info()
 			fl := core.NewFlow(f)
 			var pathsObj types.Object
 			isSort := func(n ast.Node) bool {
@@ -334,7 +356,7 @@ func ruleGL() Rule {
 			// the returned variable
 			var rets []*ast.ReturnStmt
 			f.OwnNodes(func(n ast.Node) bool {
-				if r, ok := n.(*ast.ReturnStmt); ok && len(r.Results) == 2 {
+				if r, ok := n.(*ast.ReturnStmt); ok && len(r.Results) >= 1 {
 					if id, ok := ast.Unparen(r.Results[0]).(*ast.Ident); ok {
 						if v, ok := info.Uses[id].(*types.Var); ok {
 							pathsObj = v
@@ -345,17 +367,27 @@ func ruleGL() Rule {
 				return true
 			})
 			if pathsObj == nil {
-				rr.Unk(f, f.Name+"|returned-slice", f.Pos(), "Glob does not return a named slice variable")
-				return
+				if report {
+					rr.Unk(f, f.Name+"|returned-slice", f.Pos(), "Glob does not return a named slice variable")
+				}
+				return false
 			}
 			reset := func(n ast.Node) bool {
 				as, ok := n.(*ast.AssignStmt)
-				if !ok || as.Tok != token.ASSIGN {
+				if !ok || as.Tok != token.ASSIGN && as.Tok != token.DEFINE {
 					return false
 				}
 				for i, l := range as.Lhs {
-					if id, ok := l.(*ast.Ident); ok && info.Uses[id] == pathsObj && i < len(as.Rhs) {
-						if _, isLit := as.Rhs[i].(*ast.CompositeLit); !isLit {
+					if id, ok := l.(*ast.Ident); ok && info.ObjectOf(id) == pathsObj && i < len(as.Rhs) {
+						switch as.Rhs[i].(type) {
+						case *ast.CompositeLit:
+						default:
+							if as.Tok == token.DEFINE {
+								// a fresh list: only the result of a call can be unsorted
+								if _, isCall := ast.Unparen(as.Rhs[i]).(*ast.CallExpr); !isCall {
+									continue
+								}
+							}
 							return true
 						}
 					}
@@ -365,6 +397,19 @@ func ruleGL() Rule {
 			// a list that was sorted under another name and then assigned is sorted
 			sortedSrc := map[types.Object]map[ast.Node]bool{}
 			srcSorted := func(as *ast.AssignStmt, i int) bool {
+				if i >= len(as.Rhs) || len(as.Rhs) == 1 && len(as.Lhs) > 1 || i == 0 {
+					// the result of a private helper whose own returns are sorted
+					if call, ok := ast.Unparen(as.Rhs[0]).(*ast.CallExpr); ok && i == 0 && depth < 3 {
+						if fo := core.StaticCallee(info, call); fo != nil {
+							if h := c.P.FuncOf(fo); h != nil && h != f && h.Body != nil && h.Pkg == f.Pkg && !fo.Exported() {
+								return c.sortedReturns(rr, h, false, depth+1)
+							}
+						}
+					}
+				}
+				if i >= len(as.Rhs) {
+					return false
+				}
 				id, ok := ast.Unparen(as.Rhs[i]).(*ast.Ident)
 				if !ok {
 					return false
@@ -411,7 +456,7 @@ func ruleGL() Rule {
 				}
 				as := n.(*ast.AssignStmt)
 				for i, l := range as.Lhs {
-					if id, ok := l.(*ast.Ident); ok && info.Uses[id] == pathsObj && i < len(as.Rhs) && srcSorted(as, i) {
+					if id, ok := l.(*ast.Ident); ok && info.ObjectOf(id) == pathsObj && i < len(as.Rhs) && srcSorted(as, i) {
 						return false
 					}
 				}
@@ -421,12 +466,20 @@ func ruleGL() Rule {
 			for _, r := range rets {
 				key := f.Name + "|return " + exprStr(r.Results[0])
 				if seen[r] {
-					rr.OK(f, key, r.Pos(), "sorted", "every path from an assignment of the match list to this return passes sort.Strings")
+					if report {
+						rr.OK(f, key, r.Pos(), "sorted", "every path from an assignment of the match list to this return passes sort.Strings")
+					}
 				} else {
-					rr.Bad(f, key, r.Pos(), "the match list can be returned without having been sorted (directory order leaks into the result)")
+					result = false
+					if report {
+						rr.Bad(f, key, r.Pos(), "the match list can be returned without having been sorted (directory order leaks into the result)")
+					}
 				}
 			}
-		}}
+		}
+	}
+	c.cache[key0] = result
+	return result
 }
 
 func conj(e ast.Expr) []ast.Expr {
